@@ -35,28 +35,31 @@ type c15Case struct {
 var c15Contexts = map[string]struct {
 	tmpl string
 	find func(c ast.Command) (ast.Word, bool)
+	// pre: unquoted text that the template puts directly in front of the
+	// quoted word (the field is then pre + s)
+	pre string
 }{
-	"arg_newline":   {"_ %s\n", func(c ast.Command) (ast.Word, bool) { return c15Arg(c, 2, 1) }},
-	"arg_then_word": {"_ %s yy\n", func(c ast.Command) (ast.Word, bool) { return c15Arg(c, 3, 1) }},
-	"command_name":  {"%s yy\n", func(c ast.Command) (ast.Word, bool) { return c15Arg(c, 2, 0) }},
+	"arg_newline":   {"_ %s\n", func(c ast.Command) (ast.Word, bool) { return c15Arg(c, 2, 1) }, ""},
+	"arg_then_word": {"_ %s yy\n", func(c ast.Command) (ast.Word, bool) { return c15Arg(c, 3, 1) }, ""},
+	"command_name":  {"%s yy\n", func(c ast.Command) (ast.Word, bool) { return c15Arg(c, 2, 0) }, ""},
 	"after_and": {"x && %s yy\n", func(c ast.Command) (ast.Word, bool) {
 		if ao, ok := c.(*ast.AndOrList); ok && len(ao.List) == 1 && ao.List[0].Pipeline != nil {
 			return c15Arg(ao.List[0].Pipeline.Cmd, 2, 0)
 		}
 		return nil, false
-	}},
+	}, ""},
 	"after_and_newline": {"x &&\n%s\nyy\n", func(c ast.Command) (ast.Word, bool) {
 		if ao, ok := c.(*ast.AndOrList); ok && len(ao.List) == 1 && ao.List[0].Pipeline != nil {
 			return c15Arg(ao.List[0].Pipeline.Cmd, 1, 0)
 		}
 		return nil, false
-	}},
+	}, ""},
 	"after_pipe": {"x | %s yy\n", func(c ast.Command) (ast.Word, bool) {
 		if p, ok := c.(*ast.Pipeline); ok && len(p.List) == 1 {
 			return c15Arg(p.List[0].Cmd, 2, 0)
 		}
 		return nil, false
-	}},
+	}, ""},
 	"in_braces": {"{ %s yy; }\n", func(c ast.Command) (ast.Word, bool) {
 		if cm, ok := c.(*ast.Cmd); ok {
 			if g, ok := cm.Expr.(*ast.Group); ok && len(g.List) == 1 {
@@ -71,7 +74,7 @@ var c15Contexts = map[string]struct {
 			}
 		}
 		return nil, false
-	}},
+	}, ""},
 	"case_word": {"case %s in yy) ;; esac\n", func(c ast.Command) (ast.Word, bool) {
 		if cm, ok := c.(*ast.Cmd); ok {
 			if cc, ok := cm.Expr.(*ast.CaseClause); ok && len(cc.Items) == 1 {
@@ -79,7 +82,7 @@ var c15Contexts = map[string]struct {
 			}
 		}
 		return nil, false
-	}},
+	}, ""},
 	"case_pattern": {"case x in %s) yy;; esac\n", func(c ast.Command) (ast.Word, bool) {
 		if cm, ok := c.(*ast.Cmd); ok {
 			if cc, ok := cm.Expr.(*ast.CaseClause); ok && len(cc.Items) == 1 && len(cc.Items[0].Patterns) == 1 {
@@ -87,7 +90,7 @@ var c15Contexts = map[string]struct {
 			}
 		}
 		return nil, false
-	}},
+	}, ""},
 	"for_item": {"for i in %s yy\ndo x; done\n", func(c ast.Command) (ast.Word, bool) {
 		if cm, ok := c.(*ast.Cmd); ok {
 			if f, ok := cm.Expr.(*ast.ForClause); ok && len(f.Items) == 2 {
@@ -95,7 +98,7 @@ var c15Contexts = map[string]struct {
 			}
 		}
 		return nil, false
-	}},
+	}, ""},
 	"redirection": {"_ >%s yy\n", func(c ast.Command) (ast.Word, bool) {
 		if cm, ok := c.(*ast.Cmd); ok && len(cm.Redirs) == 1 {
 			if sc, ok := cm.Expr.(*ast.SimpleCmd); ok && len(sc.Args) == 2 {
@@ -103,7 +106,7 @@ var c15Contexts = map[string]struct {
 			}
 		}
 		return nil, false
-	}},
+	}, ""},
 	"in_substitution": {"_ $(_ %s yy) zz\n", func(c ast.Command) (ast.Word, bool) {
 		if w, ok := c15Arg(c, 3, 1); ok && len(w) == 1 {
 			if cs, ok := w[0].(*ast.CmdSubst); ok && len(cs.List) == 1 {
@@ -111,7 +114,7 @@ var c15Contexts = map[string]struct {
 			}
 		}
 		return nil, false
-	}},
+	}, ""},
 	// the command inside a substitution is not double-quoted text, wherever the substitution stands
 	"in_dquoted_substitution": {"_ \"a $(_ %s yy) b\" zz\n", func(c ast.Command) (ast.Word, bool) {
 		if w, ok := c15Arg(c, 3, 1); ok && len(w) == 1 {
@@ -122,7 +125,7 @@ var c15Contexts = map[string]struct {
 			}
 		}
 		return nil, false
-	}},
+	}, ""},
 	"in_heredoc_substitution": {"cat <<E\n$(_ %s yy)\nE\n", func(c ast.Command) (ast.Word, bool) {
 		if cm, ok := c.(*ast.Cmd); ok && len(cm.Redirs) == 1 && len(cm.Redirs[0].Heredoc) >= 1 {
 			if cs, ok := cm.Redirs[0].Heredoc[0].(*ast.CmdSubst); ok && len(cs.List) == 1 {
@@ -130,7 +133,7 @@ var c15Contexts = map[string]struct {
 			}
 		}
 		return nil, false
-	}},
+	}, ""},
 	"in_dquoted_backquotes": {"_ \"`_ %s yy`\" zz\n", func(c ast.Command) (ast.Word, bool) {
 		if w, ok := c15Arg(c, 3, 1); ok && len(w) == 1 {
 			if q, ok := w[0].(*ast.Quote); ok && len(q.Value) == 1 {
@@ -140,10 +143,42 @@ var c15Contexts = map[string]struct {
 			}
 		}
 		return nil, false
-	}},
+	}, ""},
+	// behind a here-document with an unquoted delimiter, inside the same command
+	"after_heredoc_in_group": {"{ cat <<E\nbody $x\nE\n_ %s yy\n}\n", func(c ast.Command) (ast.Word, bool) {
+		if cm, ok := c.(*ast.Cmd); ok {
+			if g, ok := cm.Expr.(*ast.Group); ok && len(g.List) == 2 {
+				return c15Arg(g.List[1], 3, 1)
+			}
+		}
+		return nil, false
+	}, ""},
+	"after_heredoc_in_and_or": {"cat <<E <<-F &&\nbody\nE\n\tf $(c)\n\tF\n_ %s yy\n", func(c ast.Command) (ast.Word, bool) {
+		if ao, ok := c.(*ast.AndOrList); ok && len(ao.List) == 1 && ao.List[0].Pipeline != nil {
+			return c15Arg(ao.List[0].Pipeline.Cmd, 3, 1)
+		}
+		return nil, false
+	}, ""},
+	// digits, then the quoted text, then a redirection operator without a blank: one word, no io-number
+	"digits_then_quoted_before_redirection": {"_ 7%s>f yy\n", func(c ast.Command) (ast.Word, bool) {
+		if cm, ok := c.(*ast.Cmd); ok && len(cm.Redirs) == 1 && cm.Redirs[0].N == nil {
+			if sc, ok := cm.Expr.(*ast.SimpleCmd); ok && len(sc.Args) == 3 {
+				return sc.Args[1], true
+			}
+		}
+		return nil, false
+	}, "7"},
+	"digits_then_quoted_before_dup": {"_ 12%s<&3 yy\n", func(c ast.Command) (ast.Word, bool) {
+		if cm, ok := c.(*ast.Cmd); ok && len(cm.Redirs) == 1 && cm.Redirs[0].N == nil {
+			if sc, ok := cm.Expr.(*ast.SimpleCmd); ok && len(sc.Args) == 3 {
+				return sc.Args[1], true
+			}
+		}
+		return nil, false
+	}, "12"},
 }
 
-var c15CtxNames = []string{"arg_newline", "arg_then_word", "command_name", "after_and", "after_and_newline", "after_pipe", "in_braces", "case_word", "case_pattern", "for_item", "redirection", "in_substitution", "in_dquoted_substitution", "in_heredoc_substitution", "in_dquoted_backquotes"}
+var c15CtxNames = []string{"arg_newline", "arg_then_word", "command_name", "after_and", "after_and_newline", "after_pipe", "in_braces", "case_word", "case_pattern", "for_item", "redirection", "in_substitution", "in_dquoted_substitution", "in_heredoc_substitution", "in_dquoted_backquotes", "after_heredoc_in_group", "after_heredoc_in_and_or", "digits_then_quoted_before_redirection", "digits_then_quoted_before_dup"}
 
 // c15Arg returns word i of a simple command of exactly n words.
 func c15Arg(c ast.Command, n, i int) (ast.Word, bool) {
@@ -274,12 +309,19 @@ func checkC15(c c15Case) error {
 	}
 	src := "_ " + q
 	find := func(c ast.Command) (ast.Word, bool) { return c15Arg(c, 2, 1) }
+	// S: the field that has to come out (the quoted text, behind the
+	// unquoted text some contexts put in front of it)
+	S := c.S
 	if c.Ctx != "" {
 		cx, ok := c15Contexts[c.Ctx]
 		if !ok {
 			return fmt.Errorf("harness: unknown context %q", c.Ctx)
 		}
 		src, find = fmt.Sprintf(cx.tmpl, q), cx.find
+		S = cx.pre + c.S
+		if cx.pre != "" && strings.HasPrefix(c.Quote, "word:") || cx.pre != "" && strings.HasPrefix(c.Quote, "param-") {
+			return nil // digits glued to "${" would be another parameter
+		}
 	}
 	cmd, _, err := parser.ParseCommand("c15", src)
 	if err != nil {
@@ -294,7 +336,17 @@ func checkC15(c c15Case) error {
 	sc := &ast.SimpleCmd{Args: []ast.Word{nil, word}}
 	env := c15Env
 	// an adversarial IFS: every character of s, plus the usual ones
-	env.Set("IFS", c.S+" \t\nab")
+	ifs := c.S + " \t\nab"
+	if pre := strings.TrimSuffix(S, c.S); pre != "" {
+		// (the unquoted text in front of the word is not to be cut)
+		ifs = strings.Map(func(r rune) rune {
+			if strings.ContainsRune(pre, r) {
+				return -1
+			}
+			return r
+		}, ifs)
+	}
+	env.Set("IFS", ifs)
 	mode := interp.ExpMode(c.Mode)
 	opts := env.Opts
 	env.Opts = interp.Option(c.Opts)
@@ -308,18 +360,18 @@ func checkC15(c c15Case) error {
 		return fmt.Errorf("Expand(%s, mode %d): error %v", q, c.Mode, gerr)
 	}
 	if len(got) != 1 {
-		return fmt.Errorf("Expand(%s, mode %d) = %q, want exactly the one field %q", q, c.Mode, got, c.S)
+		return fmt.Errorf("Expand(%s, mode %d) = %q, want exactly the one field %q", q, c.Mode, got, S)
 	}
 	if mode&interp.Pattern == 0 {
-		if got[0] != c.S {
-			return fmt.Errorf("Expand(%s, mode %d) = %q, want %q", q, c.Mode, got[0], c.S)
+		if got[0] != S {
+			return fmt.Errorf("Expand(%s, mode %d) = %q, want %q", q, c.Mode, got[0], S)
 		}
 		return nil
 	}
 	// Pattern mode: the result must match s and only s
 	p := got[0]
-	cands := []string{c.S, "", c.S + "x"}
-	rs := []rune(c.S)
+	cands := []string{S, "", S + "x"}
+	rs := []rune(S)
 	for i := range rs {
 		for _, alt := range []rune{'x', 'a', '*'} {
 			if rs[i] != alt {
@@ -333,7 +385,7 @@ func checkC15(c c15Case) error {
 	}
 	pt, perr := ref.ParsePattern(p)
 	for _, cand := range cands {
-		want := cand == c.S
+		want := cand == S
 		if perr == nil {
 			if pt.Whole([]rune(cand)) != want {
 				return fmt.Errorf("Expand(%s, Pattern) = %q: as a pattern it matches %q = %v (reference matcher), want %v", q, p, cand, !want, want)
